@@ -491,6 +491,9 @@ impl<'a> LazyValueRef<'a> {
             // String types
             Marker::FixStr(len) => {
                 let len = len as usize;
+                if len > cursor.length - cursor.position {
+                    return Err(ErrorCode::ReadError);
+                }
                 Ok((
                     Self::String(StringRef {
                         ptr: cursor.position,
@@ -501,6 +504,9 @@ impl<'a> LazyValueRef<'a> {
             }
             Marker::Str8 => {
                 let len = cursor.read_u8().map(|n| n as usize)?;
+                if len > cursor.length - cursor.position {
+                    return Err(ErrorCode::ReadError);
+                }
                 Ok((
                     Self::String(StringRef {
                         ptr: cursor.position,
@@ -511,6 +517,9 @@ impl<'a> LazyValueRef<'a> {
             }
             Marker::Str16 => {
                 let len = cursor.read_u16().map(|n| n as usize)?;
+                if len > cursor.length - cursor.position {
+                    return Err(ErrorCode::ReadError);
+                }
                 Ok((
                     Self::String(StringRef {
                         ptr: cursor.position,
@@ -521,6 +530,9 @@ impl<'a> LazyValueRef<'a> {
             }
             Marker::Str32 => {
                 let len = cursor.read_u32().map(|n| n as usize)?;
+                if len > cursor.length - cursor.position {
+                    return Err(ErrorCode::ReadError);
+                }
                 Ok((
                     Self::String(StringRef {
                         ptr: cursor.position,
